@@ -50,7 +50,7 @@ def async_trait_attr_text(crate, exp):
     sp = exp.call_site
     lines = crate.source(sp["file"])
     text = lines[sp["hi_line"] - 1][sp["hi_col"]:] + "\n" + "\n".join(lines[sp["hi_line"]:sp["hi_line"] + 8])
-    m = re.search(r"#\[\s*(?:::)?(?:async_trait::)?async_trait\s*(\([^\]]*\))?\s*\]", text)
+    m = re.search(r"#\[\s*(?:::)?(?:\w+\s*::\s*)*async_trait\s*(\([^\]]*\))?\s*\]", text)
     return m.group(0) if m else ""
 
 
@@ -155,7 +155,10 @@ def check_pair(rep, mkey, exp, tm, orig_info, want_send, cfg):
     if not ti[0]:
         rep.add("R-FUT", mkey + " future", "trait method does not return `impl Future` (returns %s)" % tm["sig"]["output_s"], where=exp.label())
         return
-    if ti[1] != orig_info[1]:
+    nested_impl = str(orig_info[1]).startswith("opaque(") and str(ti[1]).endswith("::<anon>")
+    # (`async fn f() -> impl Trait`: the original's Output is itself an opaque type and the trait method's a nested
+    #  return-position impl Trait; the two are not comparable by name, C03 compares such outputs by their bounds)
+    if ti[1] != orig_info[1] and not nested_impl:
         rep.add("R-FUT", mkey + " output", "future Output is `%s`, the original returns `%s`" % (ti[1], orig_info[1]), where=exp.label())
     if ti[2] != want_send:
         rep.add("R-FUT", mkey + " send", "future is %srequired to be Send but ?Send was %sgiven"
